@@ -88,6 +88,19 @@ func (fr *Frame) call(x *ssa.Call) {
 	}
 	fr.callFunction(x, callee, args, bindings)
 	fr.assertsAfter(x, callee)
+	// clauses this lemma function is said to justify: obligations, now that the proof steps anchored at the call have run
+	for _, pj := range fr.pendingBy {
+		fr.u.justified[pj.fn+"|"+pj.c.Src] = true
+		n := len(fr.u.justified)
+		fr.u.addObl(fmt.Sprintf("%s#justifies.%d", fr.oblPrefix(), n), "assert", fr.reach, pj.t, pj.c.Where, "ensures-by clause of "+pj.fn+": "+pj.c.Src)
+	}
+	fr.pendingBy = nil
+}
+
+type pendingJustify struct {
+	t  *Term
+	c  Clause
+	fn string
 }
 
 // assertsAfter: proof-decomposition assertions anchored after this call.
@@ -96,8 +109,19 @@ func (fr *Frame) assertsAfter(x *ssa.Call, callee *ssa.Function) {
 }
 
 func (fr *Frame) assertsAfterNamed(x *ssa.Call, calleeName string, same func(*ssa.Call) bool) {
-	c := fr.contract
-	if c == nil || len(c.Asserts) == 0 || fr.reach == False {
+	if fr.reach == False {
+		return
+	}
+	// the outermost frame: anchors of a lemma function may address calls inside the bodies it inlines ("g/f#k")
+	root := fr
+	var chain []string
+	for root.parent != nil {
+		chain = append([]string{root.fn.Name()}, chain...)
+		root = root.parent
+	}
+	own := fr.contract != nil && len(fr.contract.Asserts) > 0
+	outer := root != fr && root.contract != nil && len(root.contract.Asserts) > 0
+	if !own && !outer {
 		return
 	}
 	// static ordinal of this call among calls of the same callee
@@ -117,65 +141,118 @@ func (fr *Frame) assertsAfterNamed(x *ssa.Call, calleeName string, same func(*ss
 			break
 		}
 	}
-	for k, a := range c.Asserts {
-		if a.Callee != calleeName || a.Ord != ord {
-			continue
-		}
-		if fr.top {
-			fr.u.anchored[k] = true
-		}
-		env := fr.contractEnv(fr.params, nil, fr.st, fr.entry)
-		// the call's arguments and result are visible as $arg0.. and $ret
-		for ai, av := range x.Call.Args {
-			if val, ok := fr.env[av]; ok {
-				env.vars[fmt.Sprintf("$arg%d", ai)] = cvOfVal(canonVal(val))
-			} else if c, ok := av.(*ssa.Const); ok {
-				env.vars[fmt.Sprintf("$arg%d", ai)] = cvOfVal(canonVal(fr.constVal(c)))
-			}
-		}
-		if x.Call.IsInvoke() {
-			if rv, ok := fr.env[x.Call.Value]; ok {
-				env.vars["$recv"] = cvOfVal(canonVal(rv))
-			}
-		}
-		if rv, ok := fr.env[x]; ok && rv.K != VTuple {
-			env.vars["$ret"] = cvOfVal(canonVal(rv))
-		} else if ok {
-			for ri, e := range rv.El {
-				env.vars[fmt.Sprintf("$ret%d", ri)] = cvOfVal(canonVal(e))
-			}
-		}
-		base := env.resolve
-		blk, cur, st := fr.blk, fr.env, fr.st
-		_ = st
-		env.resolve = func(name string, ce *Env) *CV {
-			if v := fr.resolveLocal(name, blk, cur, ce.st); v != nil {
-				return v
-			}
-			return base(name, ce)
-		}
-		if a.Lemma {
-			inst, err := fr.u.v.lemmaInstance(env, a.C.E.(*ECall))
-			if err != nil {
-				fr.u.errs = append(fr.u.errs, fmt.Sprintf("%s: lemma instance %s: %v (contract.attach)", a.C.Where, a.C.Src, err))
+	if own {
+		for k, a := range fr.contract.Asserts {
+			if a.Callee != calleeName || a.Ord != ord || len(a.Path) > 0 {
 				continue
 			}
-			fr.assume(inst)
-			continue
+			fr.anchor(fr, k, a, x)
 		}
-		t, err := env.evalBool(a.C.E)
-		if err != nil {
-			fr.u.errs = append(fr.u.errs, fmt.Sprintf("%s: assert %s: %v (contract.attach)", a.C.Where, a.C.Src, err))
-			continue
-		}
-		name := fmt.Sprintf("%s#assert.%d", fr.oblPrefix(), k+1)
-		fr.u.counters[name]++
-		if n := fr.u.counters[name]; n > 1 {
-			name = fmt.Sprintf("%s@%d", name, n)
-		}
-		fr.u.addObl(name, "assert", fr.reach, t, a.C.Where, a.C.Src)
-		fr.assume(t)
 	}
+	if outer {
+		for k, a := range root.contract.Asserts {
+			if a.Callee != calleeName || a.Ord != ord || len(a.Path) != len(chain) {
+				continue
+			}
+			ok := true
+			for i := range chain {
+				ok = ok && a.Path[i] == chain[i]
+			}
+			if ok {
+				fr.anchor(root, k, a, x)
+			}
+		}
+	}
+}
+
+// anchor evaluates clause a of owner's contract after call x, which frame fr has just executed
+// (owner == fr, or owner is the outermost frame and fr one of the bodies it inlines).
+func (fr *Frame) anchor(owner *Frame, k int, a AssertAt, x *ssa.Call) {
+	if owner.top {
+		fr.u.anchored[k] = true
+	}
+	env := owner.contractEnv(owner.params, nil, fr.st, owner.entry)
+	// the call's arguments and result are visible as $arg0.. and $ret
+	for ai, av := range x.Call.Args {
+		if val, ok := fr.env[av]; ok {
+			env.vars[fmt.Sprintf("$arg%d", ai)] = cvOfVal(canonVal(val))
+		} else if c, ok := av.(*ssa.Const); ok {
+			env.vars[fmt.Sprintf("$arg%d", ai)] = cvOfVal(canonVal(fr.constVal(c)))
+		}
+	}
+	if x.Call.IsInvoke() {
+		if rv, ok := fr.env[x.Call.Value]; ok {
+			env.vars["$recv"] = cvOfVal(canonVal(rv))
+		}
+	}
+	if rv, ok := fr.env[x]; ok && rv.K != VTuple {
+		env.vars["$ret"] = cvOfVal(canonVal(rv))
+	} else if ok {
+		if _, multi := x.Type().(*types.Tuple); !multi {
+			env.vars["$ret"] = cvOfVal(canonVal(rv))
+		}
+		for ri, e := range rv.El {
+			env.vars[fmt.Sprintf("$ret%d", ri)] = cvOfVal(canonVal(e))
+		}
+	}
+	// ghost values named by earlier "bind" clauses
+	for n, gv := range fr.u.ghost {
+		if _, clash := env.vars[n]; !clash {
+			env.vars[n] = gv
+		}
+	}
+	base := env.resolve
+	blk, cur := owner.blk, owner.env
+	env.resolve = func(name string, ce *Env) *CV {
+		if v := owner.resolveLocal(name, blk, cur, ce.st); v != nil {
+			return v
+		}
+		return base(name, ce)
+	}
+	if a.Bind != "" {
+		cv, err := env.safeEval(a.C.E)
+		if err != nil {
+			fr.u.errs = append(fr.u.errs, fmt.Sprintf("%s: bind %s: %v (contract.attach)", a.C.Where, a.C.Src, err))
+			return
+		}
+		if fr.u.ghost == nil {
+			fr.u.ghost = map[string]*CV{}
+		}
+		if cv.K == CVal && (cv.V.K == VSlice || cv.V.K == VString) {
+			// a byte sequence is bound to its contents at this point (a snapshot): a fresh array constant
+			// equal to the current row, so that later clauses do not drag the row's construction along
+			func() {
+				defer func() { recover() }()
+				sq := env.asSeq(cv)
+				row := Fresh("snap!"+strings.TrimPrefix(a.Bind, "$"), sq.Row.S)
+				fr.assume(Eq(row, sq.Row))
+				cv = &CV{K: CSeq, Row: row, Off: sq.Off, Len: sq.Len}
+			}()
+		}
+		fr.u.ghost[a.Bind] = cv
+		return
+	}
+	if a.Lemma {
+		inst, err := fr.u.v.lemmaInstance(env, a.C.E.(*ECall))
+		if err != nil {
+			fr.u.errs = append(fr.u.errs, fmt.Sprintf("%s: lemma instance %s: %v (contract.attach)", a.C.Where, a.C.Src, err))
+			return
+		}
+		fr.assume(inst)
+		return
+	}
+	t, err := env.evalBool(a.C.E)
+	if err != nil {
+		fr.u.errs = append(fr.u.errs, fmt.Sprintf("%s: assert %s: %v (contract.attach)", a.C.Where, a.C.Src, err))
+		return
+	}
+	name := fmt.Sprintf("%s#assert.%d", owner.oblPrefix(), k+1)
+	fr.u.counters[name]++
+	if n := fr.u.counters[name]; n > 1 {
+		name = fmt.Sprintf("%s@%d", name, n)
+	}
+	fr.u.addObl(name, "assert", fr.reach, t, a.C.Where, a.C.Src)
+	fr.assume(t)
 }
 
 func (fr *Frame) setResults(x *ssa.Call, callee *types.Signature, res []*Val) {
@@ -300,11 +377,54 @@ func (fr *Frame) inlineCall(x *ssa.Call, callee *ssa.Function, c *Contract, args
 		res[i] = r
 	}
 	fr.reach = Or(conds...)
+	if c != nil && len(c.CallerEnsures) > 0 {
+		// an inlined callee that has a contract: its ghost definitions and lemma-justified clauses hold for
+		// this execution as for any other (and the lemma function that justifies one must prove it here)
+		penv := ch.contractEnv(args, res, fr.st, ch.entry)
+		for _, t := range fr.callerClauses(c, penv) {
+			fr.assume(t)
+		}
+	}
 	fr.setResults(x, callee.Signature, res)
 }
 
 // underContract: the function's own obligations are generated in this run's closure.
 func (v *Verifier) underContract(c *Contract) bool { return !c.Trusted }
+
+// callerClauses: the caller-only postconditions of c (ghost definitions, lemma-justified clauses) evaluated
+// in the post-call environment penv. Inside the lemma function that justifies a clause the clause is not
+// assumed: it becomes an obligation once the proof steps anchored at the call have run (see call()).
+func (fr *Frame) callerClauses(c *Contract, penv *Env) []*Term {
+	u := fr.u
+	var ens []*Term
+	for _, ce := range c.CallerEnsures {
+		if ce.By != "" && ce.By == u.name {
+			if t, err := penv.evalBool(ce.C.E); err != nil {
+				u.errs = append(u.errs, fmt.Sprintf("%s: %s: %v (contract.attach)", ce.C.Where, ce.C.Src, err))
+			} else {
+				fr.pendingBy = append(fr.pendingBy, pendingJustify{t: t, c: ce.C, fn: c.Fn})
+			}
+			continue
+		}
+		if ce.By == "" && !contractResultFresh(c) {
+			u.errs = append(u.errs, fmt.Sprintf("%s: ghostdef needs a contract that establishes fresh(result) (contract.attach)", ce.C.Where))
+			continue
+		}
+		t, err := penv.evalBool(ce.C.E)
+		if err != nil {
+			u.errs = append(u.errs, fmt.Sprintf("%s: %s: %v (contract.attach)", ce.C.Where, ce.C.Src, err))
+			continue
+		}
+		ens = append(ens, t)
+		if ce.By != "" {
+			u.v.lemmaDeps[ce.By] = true
+			u.assumed["postcondition of "+c.Fn+" justified by lemma function "+ce.By+" (proved in this check): "+ce.C.Src] = true
+		} else {
+			u.assumed["ghost definition at the fresh result of "+c.Fn+": "+ce.C.Src] = true
+		}
+	}
+	return ens
+}
 
 // callContract: assert requires, havoc modifies, assume ensures.
 func (fr *Frame) callContract(x ssa.Instruction, callee *ssa.Function, c *Contract, args []*Val) {
@@ -379,6 +499,7 @@ func (fr *Frame) callContract(x ssa.Instruction, callee *ssa.Function, c *Contra
 		}
 		ens = append(ens, t)
 	}
+	ens = append(ens, fr.callerClauses(c, penv)...)
 	// definitional postconditions (result component == term) are substituted
 	// into the result values, so that lengths stay syntactically visible
 	res, ens = substDefinitional(res, ens)
